@@ -99,27 +99,54 @@ impl Mul<i64> for Duration {
 impl Mul<f64> for Duration {
     type Output = Duration;
     fn mul(self, q: f64) -> Self::Output {
-        // Make sure that we don't trim the number by finding its precision
-        let mut p: i32 = 0;
-        let mut new_val = q;
-        let ten: f64 = 10.0;
-
-        loop {
-            if (new_val.floor() - new_val).abs() < f64::EPSILON {
-                // Yay, we've found the precision of this number
-                break;
-            }
-            // Multiply by the precision
-            // https://play.rust-lang.org/?version=stable&mode=debug&edition=2018&gist=b760579f103b7192c20413ebbe167b90
-            p += 1;
-            new_val = q * ten.powi(p);
+        let total = self.total_nanoseconds();
+        if q.is_nan() || total == 0 {
+            return Duration::ZERO;
         }
-
-        Duration::from_total_nanoseconds(
-            self.total_nanoseconds()
-                .saturating_mul(new_val as i128)
-                .saturating_div(10_i128.pow(p.try_into().unwrap())),
-        )
+        if q.is_infinite() {
+            return if (total > 0) == (q > 0.0) {
+                Duration::MAX
+            } else {
+                Duration::MIN
+            };
+        }
+        // A finite f64 is exactly (+/-) mantissa * 2^exponent with an integer mantissa below 2^53,
+        // so the product with the integer nanosecond count can be formed without any rounding
+        // and then truncated toward zero to a whole nanosecond.
+        let bits = q.to_bits();
+        let biased_exponent = ((bits >> 52) & 0x7ff) as i32;
+        let fraction = bits & 0x000f_ffff_ffff_ffff;
+        let (mantissa, exponent) = if biased_exponent == 0 {
+            (fraction, -1074) // subnormal (or zero)
+        } else {
+            (fraction | 0x0010_0000_0000_0000, biased_exponent - 1075)
+        };
+        let signed_mantissa = if bits >> 63 == 0 {
+            i128::from(mantissa)
+        } else {
+            -i128::from(mantissa)
+        };
+        // |total| < 2^77, so this only saturates for durations beyond ~13 million years times a full mantissa.
+        let scaled = total.saturating_mul(signed_mantissa);
+        let product = if exponent >= 0 {
+            if exponent >= 127 {
+                if scaled > 0 {
+                    i128::MAX
+                } else if scaled < 0 {
+                    i128::MIN
+                } else {
+                    0
+                }
+            } else {
+                scaled.saturating_mul(1_i128 << exponent)
+            }
+        } else if exponent <= -127 {
+            0
+        } else {
+            // Integer division truncates toward zero.
+            scaled / (1_i128 << -exponent)
+        };
+        Duration::from_total_nanoseconds(product)
     }
 }
 
